@@ -71,7 +71,7 @@ def alu_cases(ctx, cap):
     return raw, total
 
 
-def build_cases(ctx, n_part, n_random, mc=True):
+def build_cases(ctx, n_part, n_random, mc=True, alu_cap_quick=1100):
     quick = ctx.quick
     ops = pick_ops(ctx, 14) if quick else None
     mc_ops = pick_ops(ctx, 14)[::3] if quick else None
@@ -83,7 +83,7 @@ def build_cases(ctx, n_part, n_random, mc=True):
               workers=8 if quick else 14, timeout=3000, heap="8g")
     cases, total = partition_cases(ctx, ops, n_part)
     ctx.cov["partition_total"] = total
-    alu, alu_total = alu_cases(ctx, 0 if quick else (0 if os.environ.get("VERIF_FULL") == "1" else 8000))
+    alu, alu_total = alu_cases(ctx, alu_cap_quick if quick else (0 if os.environ.get("VERIF_FULL") == "1" else 8000))
     ctx.cov["alu_partition_total"] = alu_total
     cases += alu
     rng = vf.Rng(ctx.seed)
